@@ -93,3 +93,44 @@ Proof.
   all: try (destruct (D8 _ HD (next_c s) (le_n _)) as [E _]; unfold ck in E; destruct (cns s (next_c s)); [discriminate|reflexivity]).
   eapply HN; eauto. congruence.
 Qed.
+
+Ltac drel HR :=
+  pose proof (R_soft _ _ HR) as Hsoft; pose proof (R1 _ _ HR) as Hr1; pose proof (R2 _ _ HR) as Hr2;
+  pose proof (R3 _ _ HR) as Hr3; pose proof (R4 _ _ HR) as Hr4; pose proof (R5 _ _ HR) as Hr5;
+  pose proof (R6 _ _ HR) as Hr6; pose proof (R7 _ _ HR) as Hr7.
+
+Ltac use_r1 :=
+  match goal with
+  | Hr1 : (forall c w i, In (c, w, i) (r_reg ?r) -> _), H : In (?c, ?w, ?i) (r_reg ?r) |- _ =>
+    let x := fresh "x" in destruct (Hr1 _ _ _ H) as (x & ?Hx & ?Hdd & ?Hsn & ?Hor)
+  end.
+
+Definition quiet_action (a : action) : bool :=
+  match a with
+  | ASub _ _ | AWaitDone _ | AWaitCtx _ | APublish _ | ABook _ | AInsert _ | AUnsub _ | AUnsubSend _
+  | ARemove _ | ARLRemove _ | ATimerFire _ | ARemoveConn _ | UpAccept _ | UpReject _ | UpAck _
+  | SseSub _ | SseOk _ | SseFail _ | SseMsg _ _ | SseDrop _ => true
+  | _ => false
+  end.
+
+Lemma quiet_events : forall s a s' e, quiet_action a = true -> step s a = Some (s', e) -> Forall quiet e.
+Proof.
+  intros s a s' e Hq H. destruct a; try discriminate; inv_step H; repeat constructor; simpl; auto;
+    try (destruct k; simpl; repeat constructor; simpl; auto).
+Qed.
+
+Lemma rel_quiet_step : forall s a s' e r, Inv s -> InvD s -> NoConnYet s -> Rel s r -> quiet_action a = true ->
+  step s a = Some (s', e) -> Rel s' r.
+Proof.
+  intros s a s' e r HI HD HN HR Hq H. drel HR.
+  destruct a; try discriminate; clear Hq; inv_step H; expl.
+  all: try fwd_actor HI.
+  all: constructor; auto; intros; simp.
+  all: try use_r1.
+  all: eqb_cases; inj_all; fwd_same;
+       repeat (match goal with Er : removed_conn _ _ _ = _ |- _ => rewrite Er in *; clear Er end); simpl in *.
+  all: try solve [eauto | congruence | eexists; repeat split; eauto].
+  all: idtac "LEFT".
+  Show.
+  all: admit.
+Admitted.
